@@ -94,6 +94,14 @@ def run(ck):
         touch = [e for g in bodies for e in g.events("member") if strip_tmpl(e.get("f") or "") in (T + "toWrite", T + "peers", T + "timers")]
         ck.ob("C06-R1", "asyncWrite-only-enqueues", len(pushes) >= 1 and not direct and not touch, f.loc, f,
               "writesQueue.push x%d, direct writes %d, table accesses %d" % (len(pushes), len(direct), len(touch)))
+    # the loop thread drains the whole queue on every notification (the eventfd was consumed by the first pop): a write queued behind
+    # one that is skipped must still be moved to its connection's FIFO
+    hw = lib.single(prog, T + "handleWriteQueue")
+    pops = [e for e in hw.calls(lambda e: strip_tmpl(e.get("callee") or "") == "Pistache::Queue::popSafe" and strip_tmpl((e.get("recv") or {}).get("f") or "") == T + "writesQueue")]
+    ck.require(pops, "writesQueue.popSafe() not found in handleWriteQueue")
+    for e in pops:
+        okd, why = lib.drain_loop_check(hw, e)
+        ck.ob("C06-R1", "handleWriteQueue/drains-until-empty", okd, e.loc, hw, why)
     # growth of the per-connection FIFOs
     for f in prog.funcs.values():
         if not (f.base.startswith(T) or (f.is_lambda and (f.d.get("parentName") or "").startswith(T))):
